@@ -222,6 +222,14 @@ def _branch_and_price(
     if lp_obj == float("inf"):
         return Result(None, float("inf"), 0, total_cg_iters, Status.INFEASIBLE)
 
+    # Only the root LP value is a safe lower bound: below the root, pricing does not see the
+    # duals of the branching rows and a restricted master made infeasible by a column bound
+    # is discarded without looking for new columns, so node bounds may overestimate.
+    root_bound = ceil(lp_obj - eps)
+
+    def proven(obj):
+        return (obj - root_bound) / max(abs(obj), 1e-10) < gap_tol
+
     # Check if root LP is already integer
     frac_idx, frac_val = _most_fractional(x_vals, eps)
     if frac_idx is None:
@@ -237,6 +245,8 @@ def _branch_and_price(
     rounded = _round_solution(x_vals, columns, demands, eps)
     if rounded is not None:
         best_solution, best_obj = rounded
+        if proven(best_obj):
+            return Result(best_solution, best_obj, 0, total_cg_iters, Status.OPTIMAL)
 
     tree: list[tuple[float, int, _BPNode]] = []
     counter = 0
@@ -280,8 +290,7 @@ def _branch_and_price(
                 best_obj = obj
 
                 # Check gap
-                gap = (best_obj - lp_obj) / max(abs(best_obj), 1e-10)
-                if gap < gap_tol:
+                if proven(best_obj):
                     return Result(best_solution, best_obj, nodes_explored, total_cg_iters, Status.OPTIMAL)
             continue
 
@@ -303,7 +312,7 @@ def _branch_and_price(
     if best_solution is None:
         return Result(None, float("inf"), nodes_explored, total_cg_iters, Status.INFEASIBLE)
 
-    status = Status.OPTIMAL if not tree else Status.FEASIBLE
+    status = Status.OPTIMAL if proven(best_obj) else Status.FEASIBLE
     return Result(best_solution, best_obj, nodes_explored, total_cg_iters, status)
 
 
